@@ -52,7 +52,7 @@ func vGuard(f func()) (cls int) {
 	defer func() {
 		if r := recover(); r != nil {
 			cls = vClassifyPanic(r)
-			vObserve("panic", vPanicText(r))
+			vNote("panic", vPanicText(r))
 		}
 	}()
 	f()
